@@ -415,7 +415,13 @@ def _eval_new_ctx(
         if ProcessingStage.PATH_COMMIT in stages:
             _logger.debug(f"Starting stage {ProcessingStage.PATH_COMMIT}")
             t = _time()
-            _store().sync_paths(store_paths)
+            # Only the paths that lead to a blob: a kept call that the code did not reach (a branch that was not
+            # taken, a failure that the caller caught) has no result, and its path keeps what it served before.
+            _store().sync_paths(
+                OrderedDict(
+                    [(p, k) for (p, k) in store_paths.items() if _store().has_blob(k)]
+                )
+            )
             _add_delta(t, ProcessingStage.PATH_COMMIT)
             _logger.debug(f"Stage {ProcessingStage.PATH_COMMIT} done")
         else:
